@@ -213,12 +213,36 @@ class C07(WireFamily):
             ctx.violation({"family": self.correspondence,
                            "theorem_or_correspondence": "the strict checker reports re-attributions that the implementation-side "
                            "witness does not show", "cases": known[:10]}, False)
+        self.run_tables(ctx)
+
+    def run_tables(self, ctx):
+        """the clause "it neither sees nor extends the token's symbol and public-key tables": the
+        table-threading model of C12 (Model/Symbols.v, theorem C07_tables_isolated) is tied to the
+        code here too, by its own correspondence (histories with third-party appends on both
+        token types, every block printed and authorized in memory and after the round trip)"""
+        from fam_symbols import C12 as SymbolsFamily
+        sub = SymbolsFamily()
+        own = ctx.coverage
+        ctx.coverage = {}
+        try:
+            sub.run(ctx)
+        finally:
+            tables = ctx.coverage
+            ctx.coverage = own
+        keep = ("evaluations", "distinct_nontrivial", "histories_with_third_party", "disagreements_checked",
+                "cases_agreeing_with_repaired_model", "cases_showing_known_faulty_behaviour", "kernel_shards", "rule")
+        ctx.coverage["table_isolation_correspondence"] = {k: tables[k] for k in keep if k in tables}
+        ctx.coverage["traces_validated_against_impl"] = (ctx.coverage.get("traces_validated_against_impl", 0)
+                                                          + tables.get("traces_validated_against_impl", 0))
 
     def replay_case(self, ctx, obj):
         case = obj.get("case")
         if not case or case == "?":
             print("replay: no case recorded; re-run ./check %s" % ctx.pid)
             return 0
+        if "Biscuit/UnverifiedBiscuit histories" in str(obj.get("family", "")):
+            from fam_symbols import C12 as SymbolsFamily
+            return SymbolsFamily().replay_case(ctx, obj)
         r = kernel_eval(self.module, "tcase_model false (%s)" % case)
         print("model (strict) on the recorded case: %s" % r[:800])
         print("re-run ./check %s to re-evaluate against the current tree" % ctx.pid)
